@@ -303,29 +303,30 @@ pub fn run_split(left: &mut (dyn FnMut() + Send), right: &mut (dyn FnMut() + Sen
             let level = current_level();
             let ctl2 = ctl.clone();
             let sched2 = sched.clone();
-            let (lres, rres) = std::thread::scope(|s| {
-                let handle = std::thread::Builder::new()
-                    .stack_size(TASK_STACK)
-                    .spawn_scoped(s, move || {
-                        sched::set_ctx(Some(TaskCtx { sched: sched2.clone(), id: child, quiet: 0 }));
-                        set_joinctl(Some(ctl2));
-                        apply_level(level);
-                        set_in_task(true);
-                        sched2.task_begin(child);
-                        let r = catch_unwind(AssertUnwindSafe(|| right()));
-                        let msg = if r.is_err() { last_panic() } else { String::new() };
-                        set_joinctl(None);
-                        blake3::verif::set_platform(None);
-                        sched::set_ctx(None);
-                        sched2.task_end(child);
-                        r.map_err(|_| msg)
-                    })
-                    .expect("spawn child task");
-                let lres = catch_unwind(AssertUnwindSafe(|| left()));
+            let rres_cell: Mutex<Option<Result<(), String>>> = Mutex::new(None);
+            let lres;
+            {
+                let cell = &rres_cell;
+                let mut handle = crate::tpool::run_scoped(Box::new(move || {
+                    sched::set_ctx(Some(TaskCtx { sched: sched2.clone(), id: child, quiet: 0 }));
+                    set_joinctl(Some(ctl2));
+                    apply_level(level);
+                    set_in_task(true);
+                    sched2.task_begin(child);
+                    let r = catch_unwind(AssertUnwindSafe(|| right()));
+                    let msg = if r.is_err() { last_panic() } else { String::new() };
+                    set_joinctl(None);
+                    set_in_task(false);
+                    blake3::verif::set_platform(None);
+                    sched::set_ctx(None);
+                    *cell.lock().unwrap() = Some(r.map(|_| ()).map_err(|_| msg));
+                    sched2.task_end(child);
+                }));
+                lres = catch_unwind(AssertUnwindSafe(|| left()));
                 sched.block_join(id, child);
-                let rres = handle.join().expect("child thread");
-                (lres, rres)
-            });
+                handle.wait();
+            }
+            let rres = rres_cell.into_inner().unwrap().unwrap_or(Err("child did not run".into()));
             if let Err(p) = lres {
                 std::panic::resume_unwind(p);
             }
@@ -378,22 +379,21 @@ pub fn exec(plan: &Plan) -> ExecOut {
         sched.start();
         run_task(shared.clone(), 0);
     } else {
-        std::thread::scope(|s| {
-            for id in 0..n {
-                let sh = shared.clone();
-                std::thread::Builder::new()
-                    .stack_size(TASK_STACK)
-                    .spawn_scoped(s, move || run_task(sh, id))
-                    .expect("spawn task");
-            }
-            sched.start();
-            ok = sched.wait_all_done();
-            if !ok {
-                // cannot unblock stuck threads safely: report and abort the process
-                eprintln!("HARNESS: scheduler timeout, plan seed {}", shared.plan.seed);
-                std::process::exit(2);
-            }
-        });
+        let mut handles = Vec::new();
+        for id in 0..n {
+            let sh = shared.clone();
+            handles.push(crate::tpool::run_static(Box::new(move || run_task(sh, id))));
+        }
+        sched.start();
+        ok = sched.wait_all_done();
+        if !ok {
+            // cannot unblock stuck threads safely: report and abort the process
+            eprintln!("HARNESS: scheduler timeout, plan seed {}", shared.plan.seed);
+            std::process::exit(2);
+        }
+        for h in handles.iter_mut() {
+            h.wait();
+        }
     }
     finish(shared, ok)
 }
